@@ -20,7 +20,8 @@ CLAIMED = {
             "abstract interpretation (path-sensitive effect/decision extraction) + truth-table comparison + who-may-call"),
     "C06": ("§4 C06", "decides: PART.context/split/balance/terminal/advance/entry/siblings on both partition variants, REFUSE, PREPROC.once, "
                       "who-may-call of the preprocessing hook. Assumes: uniqueness theorem of the tolerance partition, solver correctness, "
-                      "refusal is an `assert` (active under default interpreter flags)",
+                      "refusal is an `assert` (active under default interpreter flags). Also DIAG.flags (all four modes of "
+                      "consistency_diagnostics, evaluated over partition/∅ outcomes and last-layer sizes 0..2) and FACT.shape",
             "abstract interpretation (solver-scope typestate, decision tables) + sibling cross-check + who-may-call"),
 }
 
@@ -83,6 +84,14 @@ CLAIMED.update({
                       "classes x fmt, loader fallbacks followed through exceptional paths). Not decided: pickling across interpreters, equality "
                       "of continued lazy computation",
             "typestate with exceptional exits + writer/reader table agreement"),
+})
+
+CLAIMED.update({
+    "C10": ("§4 C10", "decides: GRAMMAR.rules (operator table, precedence by alternative order, associativity, conditional/strict forms, read "
+                      "from the .g4 files), GRAMMAR.generated (generated parsers agree with the grammar on rules and token vocabulary), "
+                      "VISITOR.meaning (each visitor method builds the connective / conditional its rule denotes, consequence-antecedence order), "
+                      "PARSE.reject (EOF reached, error listener raising, duplicate / undeclared / reserved names rejected). Not decided: ANTLR runtime",
+            "grammar reader + abstract interpretation of the visitors + who-may-call / typestate of the parse entry points"),
 })
 
 NA = {
